@@ -57,6 +57,7 @@ def actions(level="std", nested=False):
         # engine-restricted functions nested inside unrestricted nodes
         un("calc e=-it(a)+b", lambda c: {"a", "b"} <= c and "e" not in c, lambda ch, o, i: ("calc", ch, "e", ("add", ("rneg", A, "it"), B), o))
         un("sel not(b>sq a)", lambda c: {"a", "b"} <= c, lambda ch, o, i: ("sel", ch, ("not", ("rgt", B, A, "sq")), o))
+        un("sel -it(a)>b", lambda c: {"a", "b"} <= c, lambda ch, o, i: ("sel", ch, ("gt", ("rneg", A, "it"), B), o))
     if level == "full":
         un("calc c=a+b", lambda c: {"a", "b"} <= c and "c" not in c, lambda ch, o, i: ("calc", ch, "c", ("add", A, B), o))
         un("sel false", lambda c: True, lambda ch, o, i: ("sel", ch, ("plit", False), o))
